@@ -218,7 +218,10 @@ def rebuild(defs, inputs=None, name="R"):
                     v = rd["value"]
                     if v.startswith("<"):
                         continue      # object-valued references: second pass, when every target exists
-                    setattr(s, rn, None if v == "N" else int(v))
+                    if rd.get("mode", "auto") != "auto":
+                        s.set_ref(rn, None if v == "N" else int(v), rd["mode"])
+                    else:
+                        setattr(s, rn, None if v == "N" else int(v))
                 except Exception as e:
                     problems.append("ref %s.%s: %r" % (path, rn, e))
             if sd.get("param"):
@@ -348,12 +351,20 @@ def gen_next(rng, live, cfg, prev=None, focus=None):
         nm = rng.choice(W.REFS)
         if rng.random() < cfg.get("cross_names", 0.0):
             nm = rng.choice(W.CELLS + W.CHILD)
+        mode = None
+        if cfg.get("ref_modes") and rng.random() < cfg["ref_modes"]:
+            # the reference mode is a part of the definition that derived references take from their first definer
+            mode = rng.choice(["auto", "relative", "absolute"])
         if rng.random() < cfg.get("obj_refs", 0.0):
             # an object-valued reference: a cells (or a space) of the model
             tp, ts = rng.choice(spaces)
+            if mode in ("auto", "relative"):
+                tp, ts = path, s        # relative binding means something for targets in the defining space
             if list(ts.cells) and rng.random() < 0.8:
-                return ["set_ref", path, nm, ["obj", tp + "." + rng.choice(list(ts.cells))], "absolute"]
-            return ["set_ref", path, nm, ["obj", tp], "absolute"]
+                return ["set_ref", path, nm, ["obj", tp + "." + rng.choice(list(ts.cells))], mode or "absolute"]
+            return ["set_ref", path, nm, ["obj", tp], mode or "absolute"]
+        if mode is not None:
+            return ["set_ref", path, nm, rng.randint(0, 9), mode]
         return ["set_ref", path, nm, rng.randint(0, 9)]
     if k == "set_param":
         return ["set_param", path, 1 if rng.random() < 0.8 else 0]
@@ -695,23 +706,30 @@ def enumerate_edits(ctx, out, prop, hooks_factory, cfg, stats, quick_per_motif=1
         if variant:
             edits = [e for e in edits if e[0] != "set_value"]
         rng = ctx.rng("enum", prop, mi)
+        extra = isinstance(mi, int) and mi >= len(MOTIFS)
         per = quick_per_motif if not variant else 4
+        if extra and cfg.get("extra_light"):
+            per = 6
         chosen = edits if ctx.tier == "thorough" else rng.sample(edits, min(len(edits), per))
         chosen = chosen + [e for e in edits if e[0] in cfg.get("enum_always", ()) and e not in chosen]
+        if extra:
+            # a property's own motifs: also every edit of the kinds it names (e.g. adding ONE base anywhere)
+            chosen = chosen + [e for e in edits if e not in chosen and any(pred(e) for pred in cfg.get("extra_always", ()))]
         seqs = [[e] for e in chosen]
         if variant:
             stats["uncached_variant_programs"] += 1
-        for _ in range(0 if variant and ctx.tier != "thorough" else pairs_per_motif * (4 if ctx.tier == "thorough" else 1)):
+        light = (variant or (extra and cfg.get("extra_light"))) and ctx.tier != "thorough"
+        for _ in range(0 if light else pairs_per_motif * (4 if ctx.tier == "thorough" else 1)):
             seqs.append([rng.choice(edits), ["evalall"], rng.choice(edits)])
         # structured pairs: a value edit / clear of one element, then a reference or base edit
         first = [e for e in edits if e[0] in ("set_value", "clear")]
         second = [e for e in edits if e[0] in ("set_ref", "del_ref", "set_mref", "remove_bases", "add_bases", "new_space")]
-        if first and second and not variant:
+        if first and second and not light:
             allpairs = [[a, b] for a in first for b in second]
             for pr in (allpairs if ctx.tier == "thorough" else rng.sample(allpairs, min(len(allpairs), 10))):
                 seqs.append(pr)
         # a base edit followed by an unrelated structural edit (orders must survive graph copies)
-        for e in [e for e in edits if e[0] == "add_bases" and len(e[2]) == 2][:(99 if ctx.tier == "thorough" else 4 if not variant else 0)]:
+        for e in [e for e in edits if e[0] == "add_bases" and len(e[2]) == 2][:(99 if ctx.tier == "thorough" else 4 if not light else 0)]:
             seqs.append([e, ["new_space", "-", "D" if not any(p == "D" for p in [x[2] for x in m if x[0] == "new_space"]) else "B", []]])
         for seq in seqs:
             ops = [list(o) for o in prefix] + [list(o) for o in seq] + [["evalall"]]
